@@ -47,7 +47,7 @@ FTYPES = {
 ORDER = [t for t in FTYPES if t != "intok"]
 ADDITIONS = ["", "addition=False", "addition=int"]
 # further options of the declaration (the black-box item judgement runs under the same ones)
-XOPTS = ["", "ignore_constraints=True"]
+XOPTS = ["", "ignore_constraints=True", "max_params=1"]
 EXCESS = [(), (("zz", "1"),), (("zz", "'x'"),), (("zz", "'x'"), ("yy", "2"))]
 MAXERR = [None, 1, 2, 3]
 NAMES = ["a", "b", "c"]
@@ -218,6 +218,11 @@ def expected_failing(env, base, fields, add_expr, combo, ex, args, xopt=""):
         elif add_expr.startswith("addition=int"):
             if int_fails(env, vx):
                 bad.add(k)
+    if "max_params=1" in xopt:
+        # more input keys than allowed is one more failing item (it names no key)
+        n_in = sum(1 for vx in combo if vx is not None) + len(ex)
+        if n_in > 1:
+            bad.add("<max_params>")
     if base == "SchemaProp" and not bad and "ignore_constraints" not in xopt:
         # properties are computed from the parsed instance, so only when every input item is valid: the property
         # value is the converted a, and PositiveInt rejects it when it is not positive
@@ -232,6 +237,8 @@ def run_shard(shard, tier):
     for base, fields in decls(tier)[lo:hi]:
         adds = ADDITIONS if base in ("Schema", "DataClass", "SchemaProp") else [""]
         xopts = XOPTS if len(fields) <= 2 else [""]
+        if base == "varargs":
+            xopts = [x for x in xopts if "max_params" not in x]
         for add_expr, xopt in itertools.product(adds, xopts):
             add_expr = ", ".join(p for p in (add_expr, xopt) if p)
             try:
@@ -255,6 +262,8 @@ def run_shard(shard, tier):
 
 
 def item_of(err):
+    if type(err).__name__ == "ParamsExceedError":
+        return "<max_params>"
     it = getattr(err, "item", None)
     return it
 
